@@ -12,6 +12,11 @@ ENG = {
 
 # id: (engine, category, technique, level text, level note, design ref)
 CHECKS = {
+ "C11": ("E2", "model_checking",
+   "explicit-state search over histories of signing calls (40 operations = 5 references x 4 metadata maps x 2 formats; all sequences to depth 2 on three repositories + depth 3 on the mock in quick, depth 3 everywhere in thorough) on a same-object mock repository, the on-disk OCI layout (re-opened) and the memory store, with before/after snapshots; reference model of success + payload/subject/annotation oracle with independent re-verification",
+   "Every history is replayed on a fresh repository through the real notation.SignOCI with real GenericSigners (and a recording signer); after every call the referrers, the envelope payload (lib/refsig), the descriptor handed to the signer, the manifest subject and annotations (thumbprints recomputed, signing time), and the unchanged-ness of the resolved descriptor, index.json entry, handed-out objects and caller maps are compared with the reference model, which is independent of what was signed before.",
+   "Trusted: the reference model in harness/c11, lib/refsig, oras-go stores as substrate.",
+   "DESIGN.md section 5 C11"),
  "C07": ("E3", "model_checking",
    "exhaustive product of sign->verify round trips through the real signing API (6 key specs x 2 formats x 4 signer kinds incl. raw-signature and envelope plugins x 11 targets x 3 metadata maps x 3 expiry durations x 2 agents; quick: RSA-3072/4096 and the 1 MiB blob on a diagonal) fed to the real verification API; equality oracle on what was signed vs what is reported + independent re-verification",
    "Every tuple is signed by the real GenericSigner/PluginSigner (notation.SignBlob / Signer.Sign / SignOCI) and verified by the real verifier / notation.VerifyBlob / notation.Verify; payload, digest algorithm bound to the key, expiry = signing time + duration, returned blob descriptor and UserMetadata() are compared with what the generator asked to sign; lib/refsig re-verifies the bytes.",
